@@ -7,6 +7,7 @@ package main
 
 import (
 	"fmt"
+	"strings"
 
 	"github.com/utreexo/utreexo"
 )
@@ -147,7 +148,12 @@ func (m *Monitor) recheck(call string, in *Inst) {
 			}
 		}
 		if bad {
-			m.w.fail([]string{"C17"}, in, "retained",
+			props := []string{"C17"}
+			if strings.HasPrefix(r.what, "Prove result") {
+				// a proof that changes after it was handed out is no longer the canonical proof (C02)
+				props = append(props, "C02")
+			}
+			m.w.fail(props, in, "retained",
 				fmt.Sprintf("%s returned earlier by %s changed during a later %s", r.what, r.inst, call), nil, nil)
 			// report once
 			r.hsnap = append([]Hash{}, r.hs...)
